@@ -13,7 +13,7 @@ from .. import model as M
 ID = "C01"
 RULE = ("Programs with 1-4 splitter fields (optional salt incl. non-ASCII, 1-3 return statements) and field values "
         "str/int/float (nan, +-inf, -0.0)/bool/None, incl. clusters of values that are ==-equal but print differently (1/True/1.0, 0/False/-0.0, 2/2.0). (a) In-process histories: generated sequences of new(source), "
-        "recompile(evaluator, other source), recompile(same source), call(evaluator, inputs) over several evaluator instances "
+        "recompile(evaluator, other source), recompile(same source), call(evaluator, inputs) and unrelated odd texts being compiled in between (unterminated comment, junk), over several evaluator instances "
         "of 2-3 sources, incl. recompile cycles A->B->A and repeated calls in different orders. (b) Cross-process: a batch of "
         "(source, inputs) pairs is evaluated in child interpreters with PYTHONHASHSEED in {0,1,4242,random}, "
         "LANG/LC_ALL in {C, POSIX, C.UTF-8, tr_TR.UTF-8}, PYTHONUTF8 in {0,1}, different working directories. Oracle: a table "
@@ -69,9 +69,13 @@ def histories(draw):
         inputs.append([M.enc_inputs(draw(_inputs(sk["prog"], sk["classes"], iv, cluster))) for _ in range(draw(st.integers(2, 4)))])
     ops = []
     for _ in range(draw(st.integers(4, 40))):
-        k = draw(st.sampled_from(["new", "recompile", "recompile_same", "call", "call", "call", "cycle"]))
+        k = draw(st.sampled_from(["new", "recompile", "recompile_same", "call", "call", "call", "cycle", "noise"]))
         ops.append([k, draw(st.integers(0, 5)), draw(st.integers(0, len(srcs) - 1)), draw(st.integers(0, 3))])
     return {"sources": [s["prog"] for s in srcs], "inputs": inputs, "ops": ops}
+
+
+NOISE = ['def n { return "a" weighted 1 } /* never closed', 'def n { /* open', "@@@", "", 'def n { return "a" weighted 1 } // */ def m { return "b" weighted 1 }',
+         'def n { splitters: a, b, c return "a" weighted 1 ;', 'def lambda { splitters: class return "a" weighted 1 }', "/*"]
 
 
 def _canon(o):
@@ -104,7 +108,10 @@ def judge(case):
             evs.append([E(texts[si]), si])
         for n, (k, e, si, ii) in enumerate(case["ops"]):
             e = e % len(evs)
-            if k == "new":
+            if k == "noise":
+                # somebody else compiles something odd in the same process (outcome irrelevant): later results must not care
+                sut.compile_text(NOISE[(e + si + ii) % len(NOISE)])
+            elif k == "new":
                 if len(evs) < 6:
                     evs.append([E(texts[si]), si])
                     observe(si, ii, evs[-1][0], "new instance #%d" % (len(evs) - 1))
@@ -127,7 +134,9 @@ def judge(case):
                     observe(evs[e][1], ii + 1, evs[e][0], "instance #%d call at step %d" % (e, n))
                     observe(evs[e][1], ii, evs[e][0], "instance #%d repeated call at step %d" % (e, n))
     except Exception as ex:
-        viol.append("history raised %s: %s | %s" % (type(ex).__name__, str(ex)[:200], texts))
+        viol.append("history raised %s: %s | ops=%r | %s" % (type(ex).__name__, str(ex)[:200], case["ops"], texts))
+        for _ in range(2):
+            sut.compile_text('/* reset */ def r { return "a" weighted 1 }')
     nt_keys = []
     for (si, ii), ctxs in contexts.items():
         if len(ctxs) >= 2 and _multi(case["sources"][si]):
